@@ -9,6 +9,7 @@ CONSTANTS
   EngSensors <- SplitS
   Policy <- PolMixed
   NSteps = 2
+  SpanSteps = 2
   Dt = 1
   OutDt = 2
   Events <- NoEvents
